@@ -793,6 +793,9 @@ def _jsonable(x):
 # ------------------------------------------------------------------ clients
 def _motion(rng):
     r = rng.random()
+    if r < 0.08:
+        # a tiny motion: must not be mistaken for "nothing changed"
+        return [rng.choice([1e-6, -3e-5, 2e-4]), rng.choice([0.0, 1e-6, -4e-5])], rng.choice([0.0, 0.0, 1e-6, -2e-5])
     if r < 0.15:
         a = 0.0
     elif r < 0.3:
@@ -914,7 +917,9 @@ def _mutator(rng, run, cfg):
                 if r < 0.5:
                     yield {"op": k, "id": oid, "states": _traj_states(rng, t0, rng.randint(1, 5))}
                 elif r < 0.75:
-                    yield {"op": k, "id": oid, "variant": "shifted", "d": [rng.uniform(-9, 9), rng.uniform(-9, 9)]}
+                    yield {"op": k, "id": oid, "variant": "shifted",
+                           "d": [rng.uniform(-9, 9), rng.uniform(-9, 9)] if rng.chance(0.7) else
+                           [rng.choice([1e-6, -2e-5, 3e-4]), rng.choice([0.0, 1e-6])]}
                 else:
                     yield {"op": k, "id": oid, "variant": "reassigned", "d": [rng.uniform(-9, 9), rng.uniform(-9, 9)],
                            "a": rng.choice([0.0, 0.7])}
